@@ -1,6 +1,9 @@
 use super::*;
 use std::sync::Arc;
+#[cfg(not(mmtk_verif))]
 use std::sync::Mutex;
+#[cfg(mmtk_verif)]
+use crate::util::verif::sync::Mutex;
 
 pub struct SizeCounter {
     units: Arc<Mutex<EventCounter>>,
